@@ -42,6 +42,7 @@ def _worker_init(module_name: str):
         from vf import xs
 
         xs.install_real_lru_patch()
+        xs.snapshot_module_state()  # module-level state of the code under test right after import (see xs.reset_module_state)
     except BaseException as e:  # pylint:disable=broad-except
         _INIT_ERROR = f"{type(e).__name__}: {e}\n{traceback.format_exc()[-2500:]}"
 
